@@ -18,7 +18,15 @@ CONTENTS = [
     ">s1\nACGTACGTAC\nGTNNNNACGT\nACGAAAA\n>s2\nTTGACCATTT\n>s3\nNNNNACGT\n",
     ">x\nAC\n",
     ">s1 first\nACGTACGTAC\nGTNNNNACGT\nACG\n>s2\nTTGACCA\n>s9\nGGGGGGGGGGGGGGGGGGGGGGGGGGGGGGGGGGGGGGGGGGGGGGGGGGGGGGGGGGGGGGGGGGGGGGG\n",
+    # record names that bytes.split() (the indexer) and str.split() (the .fai reader) cut differently:
+    # FS / US inside the name, a no-break space (UTF-8), several such names collapsing to one prefix.
+    # Judged by the oracle only (the protocol model does not look inside the files).
+    ">HiC_scaffold\x1c1\nACGTACGTAC\nGT\n>HiC_scaffold\x1c2\nTTGACCA\n",
+    ">HiC_scaffold\u00a01\nACGTACGTAC\nGTNNAC\n>HiC_scaffold\u00a02 d\nTTGACCA\n",
+    ">a\x1f7 x\nAC\n>b\nACGTNNNN\n",
+    ">s1\u20035\nACGT\n",
 ]
+N_MODEL_CONTENTS = 4
 
 
 def snapshot(fi):
@@ -44,7 +52,9 @@ class C15(Prop):
             "at every block flush of each write), followed by a fresh auto-load; race: 2-3 simulated processes "
             "auto-loading the same FASTA under a deterministic scheduler, every single pre-emption point "
             "(exhaustive for 2 processes, 1 pre-emption) plus random schedules with up to 3 pre-emptions, with and "
-            "without a valid / stale / missing cache beforehand. non-trivial = distinct history with at least one "
+            "without a valid / stale / missing cache beforehand; names: cold then cached loads of files whose record "
+            "names contain FS / US / no-break space / em space (split differently by the indexer and by the .fai "
+            "reader; oracle only: a cached load fails loudly or equals a fresh index). non-trivial = distinct history with at least one "
             "completed auto-load"
         )
 
@@ -63,11 +73,11 @@ class C15(Prop):
                 yield {"gen": "crash/every-point", "steps": [["rewrite", 0, True], ["tick"]] + pre + [["load", k], ["tick"], ["load", None]]}
         # sequential random histories
         for _ in range(120 if tier == "quick" else 1500):
-            steps = [["rewrite", rng.randrange(len(CONTENTS)), True]]
+            steps = [["rewrite", rng.randrange(N_MODEL_CONTENTS), True]]
             for _ in range(rng.randint(2, 8)):
                 x = rng.random()
                 if x < 0.2:
-                    steps.append(["rewrite", rng.randrange(len(CONTENTS)), rng.random() < 0.6])
+                    steps.append(["rewrite", rng.randrange(N_MODEL_CONTENTS), rng.random() < 0.6])
                 elif x < 0.3:
                     steps.append(["delete", rng.choice(["Fai", "Agp"])])
                 elif x < 0.45:
@@ -80,6 +90,11 @@ class C15(Prop):
                 yield {"gen": "history/random/symlink", "steps": steps, "symlink": True}
             else:
                 yield {"gen": "history/random", "steps": steps}
+        # cached loads of FASTA files whose names the .fai reader splits differently from the indexer
+        for k in range(N_MODEL_CONTENTS, len(CONTENTS)):
+            yield {"gen": "names/cold-warm", "steps": [["rewrite", k, True], ["tick"], ["load", None], ["tick"], ["load", None]]}
+            yield {"gen": "names/after-plain", "steps": [["rewrite", 0, True], ["tick"], ["load", None], ["rewrite", k, True],
+                                                        ["tick"], ["load", None], ["load", None]]}
         for second in (1, 2):
             yield {"gen": "history/symlink-rewrite", "symlink": True,
                    "steps": [["rewrite", 0, True], ["tick"], ["load", None], ["rewrite", second, True], ["tick"], ["load", None]]}
@@ -208,6 +223,8 @@ class C15(Prop):
             _, pid, name, f = t
             return f"HOp {natlit(pid)} ({name} {f})" if f else f"HOp {natlit(pid)} {name}"
 
+        if case["gen"].startswith("names/"):
+            return []
         oc = {"good": "OGood", "bad": "OBad", "failed": "OFailed"}
         return lambda names: f"mkCase {listlit(obs['trace'], hop)} {listlit(obs['outcomes'], lambda o: oc[o])}"
 
